@@ -15,7 +15,7 @@ EXPLANATION = ('That every learnt clause of a run is a consequence of the clause
                'evaluator runs the function on the clause shapes (including its goto-based inner search) and the result is compared with the definition: merge reports a tautology '
                'exactly when the resolvent contains a complementary pair and otherwise yields exactly the literals of both clauses without the pivot; subsumes answers lit_Undef only '
                'if every literal of the clause occurs in the other, a literal p only if p occurs negated in the other and all remaining literals occur in it, and lit_Error otherwise. '
-               'First-UIP learning, minimisation and the theory clauses are covered by rules of C01/C05/C10 or not at all.')
+               'Conflict-clause minimisation is covered by the scratch-mark rule shared with C01/C05; first-UIP learning itself and the theory clauses are covered by rules of C01/C10/C11 or not at all.')
 
 VARS = ['a', 'b', 'c']
 
@@ -182,6 +182,9 @@ def run(src, tier, seed):
     else:
         res.bad(r, 'strengthens-wrongly', fx.loc(bs), 'backwardSubsumptionCheck no longer strengthens the tested clause %s by the negation of the literal returned by subsumes: the literal removed is not '
                 'the one self-subsuming resolution justifies' % ref)
+    # ---- the learnt clause after minimisation (shared with C01 / C05): marks of an aborted walk must not make later literals look implied
+    import satrules
+    satrules.minimisation_rule(res, fx)
     return res
 
 
